@@ -105,6 +105,9 @@ def cluster_scripts():
         {"id": "k6", "modern": True, "scripts": [H("n1", "load", "update", "cancel"), H("n1", "loadp", "update!1"), H("n1", "loadp", "demote")]},
         {"id": "k7", "modern": True, "scripts": [H("n1", "load", "jsonly", "update"), H("n1", "loadp", "update!3"), H("n1", "load", "jsonly")]},
         {"id": "k8", "modern": True, "scripts": [H("n1", "load", "update"), H("n1", "loadp", "update!2"), H("n1", "load", "promote", "demote")]},
+        # a stale handle that keeps trying after it was rejected (the deliberate marker is broken by the lock library)
+        {"id": "k10", "modern": True, "scripts": [H("n1", "load", "jsonly", "jsonly", "update", "jsonly"), H("n2", "loadp", "jsonly", "jsonly", "demote")]},
+        {"id": "k11", "modern": True, "scripts": [H("n1", "load", "cancel", "cancel", "update", "promote"), H("n2", "loadp", "update", "demote"), H("n2", "loadp", "demote")]},
         {"id": "k9", "modern": True, "scripts": [H("n1", "load", "cancel", "promote"), H("n1", "loadp", "demote!1"), H("n1", "loadp", "jsonly!1"), H("n1", "load", "jsonly")]},
     ]
 
@@ -199,8 +202,11 @@ def gen_pipeline(rng, local=None):
         jobs = [f"s{k}{chr(97 + i)}" for i in range(nj)]
         blk = {jobs[1]: [jobs[0]]} if nj == 2 and rng.random() < 0.5 else {}
         stages.append({"jobs": jobs, "blk": blk, "rc": {j: rng.choice([0, 0, 1]) for j in jobs}})
+    auto = rng.random() < 0.5
     return {"stages": stages, "local": (rng.random() < 0.35) if local is None else local, "size": rng.randint(1, 2),
-            "maxnodes": rng.choice([0, 1, 2]), "sbatch_fail_stage": rng.choice([0, 0, 0, 1])}
+            "maxnodes": rng.choice([0, 1, 2]), "sbatch_fail_stage": rng.choice([0, 0, 0, 1]),
+            # stages configured by auto-config commands; one of them (not the first) may fail
+            "auto": auto, "autofail": (rng.randint(2, n) if auto and n >= 2 and rng.random() < 0.2 else 0)}
 
 
 def run_pipeline(pscn, seed, debug=False):
@@ -218,6 +224,7 @@ def run_pipeline(pscn, seed, debug=False):
     w = World(scn, base, debug=debug)
     w.out = os.path.join(base, "pout")
     w.watch_dirs = [w.out]
+    w.cwd = base
     try:
         files = []
         for k, st in enumerate(pscn["stages"], 1):
@@ -233,7 +240,11 @@ def run_pipeline(pscn, seed, debug=False):
                              per_node_batch_size=pscn["size"], max_nodes=(pscn["maxnodes"] or None),
                              num_parallel_processes_per_node=2)
         pfile = os.path.join(base, "pipeline.json")
-        PipelineManager.create_config_from_files(files, pfile, sp)
+        if pscn.get("auto"):
+            PipelineManager.create_config_from_commands([f"vautoconfig {k}" for k in range(1, len(files) + 1)], pfile, sp)
+            w.autoconfig = {str(k): {"src": f, "rc": 1 if pscn.get("autofail") == k else 0} for k, f in enumerate(files, 1)}
+        else:
+            PipelineManager.create_config_from_files(files, pfile, sp)
         w.ev(e="cmd", pid=0, host="login", argv=["jade", "pipeline", "submit"], nested=False)
         w.spawn(argv=["jade", "pipeline", "submit", pfile, "-o", w.out], host="login", env={"VERIF_CPUS": "2"},
                 label="pipeline-submit")
@@ -280,6 +291,8 @@ def encode_pipeline(tr, sid):
             x = {"e": "summary", "k": stage(e), "nmissing": len(e["missing"])}
         elif k == "pipeline":
             x = {"e": "pipeline", "stage": e["stage"], "complete": e["complete"], "rcs": e["rcs"]}
+        elif k == "autoconfig":
+            x = {"e": "autoconfig", "k": e["k"], "envstage": e["envstage"], "stage": e["stage"], "rcs": e["rcs"], "rc": e["rc"]}
         elif k in ("kill", "fault", "hang"):
             x = {"e": "fault"}
         elif k == "end":
